@@ -1,10 +1,14 @@
 (* ApplySim.v — the simulation: the model of v5/patch.go (ImplV5: lazily parsed nodes, ordered key
    lists, in-place index arithmetic, the pointer walk of findObject) refines the ORDERED RFC 6902
    reference (Rfc6902.v) on the values the nodes denote (Abs.aval), for every document, every
-   operation sequence in the stated domain and both SupportNegativeIndices settings. *)
+   operation sequence in the stated domain and both SupportNegativeIndices settings.
+   One side condition follows the reference run (Depth.copies_fit): deepCopy refuses a source value
+   nested deeper than the decoder's limit; where it holds the refinement is as before (step_sim,
+   apply_sim, api_apply_sim), where it fails the copy is an error (step_copy_too_deep,
+   apply_copy_too_deep, api_apply_copy_too_deep). *)
 From Coq Require Import Lia.
 From JP Require Import Bytes Json Text Strings Den Pointer Rfc6902 ImplV5 DecodeFacts JsonFacts Abs EqualFacts
-                       ImplFacts RefFacts ApplyFacts Codec StrInv.
+                       ImplFacts RefFacts ApplyFacts Codec StrInv Depth.
 
 (* ---- good nodes and containers ---- *)
 (* nwf: no duplicate names, key list and map agree; nlit: number literals are number literals;
@@ -1034,17 +1038,26 @@ Qed.
 
 Definition get_fn (o : opts) (c' : con) (key : bytes) : res node * con := (con_get o c' key, c').
 
-(* from not "", path not "", no limit *)
+(* the depth check of deepCopy, on a good node: a statement about the value *)
+Lemma copy_check_fits o v : ngood v -> (odepth (aval v) <= max_depth)%N -> copy_too_deep o v = false.
+Proof. intros [W _] B. rewrite (copy_too_deep_val o v W). apply N.ltb_ge. exact B. Qed.
+
+Lemma copy_check_deep o v : ngood v -> (max_depth < odepth (aval v))%N -> copy_too_deep o v = true.
+Proof. intros [W _] B. rewrite (copy_too_deep_val o v W). apply N.ltb_lt. exact B. Qed.
+
+(* from not "", path not "", no limit; the value copied (as the reference resolves it) is within
+   the nesting limit of the decoder *)
 Lemma op_copy_sim o st op rf r c :
   s_root st = RCon c -> cgood c -> o_limit o = 0%Z ->
   op_str op (B "from") = Ok (x2f :: rf) -> Forall tok_dom (map decode_token (split_slash rf)) ->
   op_str op (B "path") = Ok (x2f :: r) -> Forall tok_dom (map decode_token (split_slash r)) ->
+  (forall v, get_at (dia o) (ptoks rf) (cval c) = ROk v -> (odepth v <= max_depth)%N) ->
   match (v <- get_at (dia o) (ptoks rf) (cval c) ;; at_parent (dia o) (ptoks r) (cval c) (add_leaf (dia o) v)) with
   | ROk j' => exists st', op_copy o st op = Ok st' /\ sval st' = j' /\ sgood st'
   | RFail cz => exists e, op_copy o st op = Err e /\ cause_rel cz e
   end.
 Proof.
-  intros Hr G Lim Hf Df Hp Dp. unfold op_copy. rewrite Hf, Hr.
+  intros Hr G Lim Hf Df Hp Dp Fit. unfold op_copy. rewrite Hf, Hr.
   change (find o c (x2f :: rf) _) with (find o c (x2f :: rf) (get_fn o)).
   pose proof (find_get_sim o c rf G Df) as FG. fold (get_fn o) in FG. unfold ptoks at 1.
   destruct (get_at (dia o) (map decode_token (path_parts rf) ++ [path_key rf]) (cval c)) as [j|cz] eqn:Eg; simpl.
@@ -1063,7 +1076,8 @@ Proof.
   destruct FU as [c2 [U1 [U2 U3]]]. rewrite U1.
   change (find o c2 (x2f :: rf) _) with (find o c2 (x2f :: rf) (get_fn o)).
   pose proof (find_get_sim o c2 rf U3 Df) as FG2. fold (get_fn o) in FG2. rewrite U2 in FG2.
-  unfold ptoks in Eg. rewrite Eg in FG2. destruct FG2 as [v [c3 [G1 [G2 [G3 _]]]]]. rewrite G1.
+  unfold ptoks in Eg, Fit. rewrite Eg in FG2. destruct FG2 as [v [c3 [G1 [G2 [G3 _]]]]]. rewrite G1.
+  rewrite (copy_check_fits o v G3) by (rewrite G2; apply Fit; exact Eg).
   destruct (deep_copy_sim o v G3) as [DC1 DC2]. destruct (deep_copy o v) as [cp sz]. cbn [fst] in *.
   rewrite Lim. change ((0 <? 0)%Z) with false. cbn [andb].
   change (find o c2 (x2f :: r) _) with (find o c2 (x2f :: r) (add_fn o cp)).
@@ -1074,17 +1088,61 @@ Proof.
   - destruct AF as [e [c4 [[A1|[A1 ->]] A2]]]; rewrite A1; eauto.
 Qed.
 
+(* the complementary case: the source resolves to a value nested deeper than the decoder accepts.
+   Order of the checks in copy(): source, path, destination parent, THEN the depth (deepCopy), then
+   the size limit, then the add: so an unreachable destination parent is still reported as such
+   (ErrMissing, as the reference's FUnreachable), and otherwise the error is deepCopy's, whatever
+   the limit is and whether or not the add itself could succeed *)
+Definition dest_reachable (d : dialect) (doc : ojson) (r : bytes) : bool :=
+  match descend d (map decode_token (path_parts r)) doc with
+  | Some p => is_container p
+  | None => false
+  end.
+
+Lemma dest_unreachable_ref d doc r g :
+  (forall p t, is_container p = false -> g p t = RFail FUnreachable) ->
+  dest_reachable d doc r = false -> at_parent d (ptoks r) doc g = RFail FUnreachable.
+Proof.
+  intros NC H. unfold ptoks. apply at_parent_unreachable; [exact NC|]. unfold dest_reachable in H.
+  destruct (descend d (map decode_token (path_parts r)) doc); [exact H | exact I].
+Qed.
+
+Lemma op_copy_too_deep o st op rf r c j :
+  s_root st = RCon c -> cgood c ->
+  op_str op (B "from") = Ok (x2f :: rf) -> Forall tok_dom (map decode_token (split_slash rf)) ->
+  op_str op (B "path") = Ok (x2f :: r) -> Forall tok_dom (map decode_token (split_slash r)) ->
+  get_at (dia o) (ptoks rf) (cval c) = ROk j -> (max_depth < odepth j)%N ->
+  op_copy o st op = if dest_reachable (dia o) (cval c) r then Err EInvalid else Err EMissing.
+Proof.
+  intros Hr G Hf Df Hp Dp Eg Deep. unfold op_copy. rewrite Hf, Hr.
+  change (find o c (x2f :: rf) _) with (find o c (x2f :: rf) (get_fn o)).
+  pose proof (find_get_sim o c rf G Df) as FG. fold (get_fn o) in FG. unfold ptoks in Eg. rewrite Eg in FG.
+  destruct FG as [v0 [c1 [F1 [F2 [F3 [F4 F5]]]]]]. rewrite F1, Hp.
+  change (find o c1 (x2f :: r) _) with (find o c1 (x2f :: r) unit_fn).
+  pose proof (find_unit_sim o c1 r F5 Dp) as FU. rewrite F4 in FU. unfold dest_reachable.
+  destruct (descend (dia o) (map decode_token (path_parts r)) (cval c)) as [p|] eqn:Ed.
+  2: { destruct FU as [c2 U1]. rewrite U1. reflexivity. }
+  destruct (is_container p) eqn:Cp.
+  2: { destruct FU as [c2 U1]. rewrite U1. reflexivity. }
+  destruct FU as [c2 [U1 [U2 U3]]]. rewrite U1.
+  change (find o c2 (x2f :: rf) _) with (find o c2 (x2f :: rf) (get_fn o)).
+  pose proof (find_get_sim o c2 rf U3 Df) as FG2. fold (get_fn o) in FG2. rewrite U2 in FG2.
+  rewrite Eg in FG2. destruct FG2 as [v [c3 [G1 [G2 [G3 _]]]]]. rewrite G1.
+  rewrite (copy_check_deep o v G3) by (rewrite G2; exact Deep). reflexivity.
+Qed.
+
 (* copy from "" (the whole document, as it is now) *)
 Lemma op_copy_root_sim o st op r c :
   s_root st = RCon c -> cgood c -> o_limit o = 0%Z ->
   op_str op (B "from") = Ok [] ->
   op_str op (B "path") = Ok (x2f :: r) -> Forall tok_dom (map decode_token (split_slash r)) ->
+  (odepth (cval c) <= max_depth)%N ->
   match at_parent (dia o) (ptoks r) (cval c) (add_leaf (dia o) (cval c)) with
   | ROk j' => exists st', op_copy o st op = Ok st' /\ sval st' = j' /\ sgood st'
   | RFail cz => exists e, op_copy o st op = Err e /\ cause_rel cz e
   end.
 Proof.
-  intros Hr G Lim Hf Hp Dp. unfold op_copy. rewrite Hf, Hr.
+  intros Hr G Lim Hf Hp Dp Fit. unfold op_copy. rewrite Hf, Hr.
   assert (F0 : find o c [] (fun c' key => (con_get o c' key, c')) = (FoundAt (con_get o c []), c)) by reflexivity.
   rewrite F0.
   assert (G0 : exists self, con_get o c [] = Ok self).
@@ -1101,6 +1159,7 @@ Proof.
   2: { destruct FU as [c2 U1]. rewrite U1. unfold ptoks. rewrite at_parent_unreachable; auto; [|rewrite Ed; exact Cp].
        exists EMissing. split; reflexivity. }
   destruct FU as [c2 [U1 [U2 U3]]]. rewrite U1.
+  rewrite (copy_check_fits o (node_of_con c2) (proj1 U3)) by (fold (cval c2); rewrite U2; exact Fit).
   destruct (deep_copy_sim o (node_of_con c2) (proj1 U3)) as [DC1 DC2].
   destruct (deep_copy o (node_of_con c2)) as [cp sz]. cbn [fst] in *.
   rewrite Lim. change ((0 <? 0)%Z) with false. cbn [andb].
@@ -1110,6 +1169,29 @@ Proof.
   - destruct AF as [a [c4 [A1 [A2 A3]]]]. rewrite A1. eexists. split; [reflexivity|].
     unfold sval, sgood. cbn [s_root]. split; auto. eauto.
   - destruct AF as [e [c4 [[A1|[A1 ->]] A2]]]; rewrite A1; eauto.
+Qed.
+
+Lemma op_copy_root_too_deep o st op r c :
+  s_root st = RCon c -> cgood c ->
+  op_str op (B "from") = Ok [] ->
+  op_str op (B "path") = Ok (x2f :: r) -> Forall tok_dom (map decode_token (split_slash r)) ->
+  (max_depth < odepth (cval c))%N ->
+  op_copy o st op = if dest_reachable (dia o) (cval c) r then Err EInvalid else Err EMissing.
+Proof.
+  intros Hr G Hf Hp Dp Deep. unfold op_copy. rewrite Hf, Hr.
+  assert (F0 : find o c [] (fun c' key => (con_get o c' key, c')) = (FoundAt (con_get o c []), c)) by reflexivity.
+  rewrite F0.
+  assert (G0 : exists self, con_get o c [] = Ok self).
+  { destruct c as [s k ob| |s ns]; [| exfalso; exact (proj2 G) |]; simpl; eauto. }
+  destruct G0 as [self G0]. rewrite G0, Hp.
+  change (find o c (x2f :: r) _) with (find o c (x2f :: r) unit_fn).
+  pose proof (find_unit_sim o c r G Dp) as FU. unfold dest_reachable.
+  destruct (descend (dia o) (map decode_token (path_parts r)) (cval c)) as [p|] eqn:Ed.
+  2: { destruct FU as [c2 U1]. rewrite U1. reflexivity. }
+  destruct (is_container p) eqn:Cp.
+  2: { destruct FU as [c2 U1]. rewrite U1. reflexivity. }
+  destruct FU as [c2 [U1 [U2 U3]]]. rewrite U1.
+  rewrite (copy_check_deep o (node_of_con c2) (proj1 U3)) by (fold (cval c2); rewrite U2; exact Deep). reflexivity.
 Qed.
 
 (* ---- one operation ---- *)
@@ -1139,14 +1221,17 @@ Proof. unfold den_op, ref_value. simpl. destruct (aget (B "value") op) as [[t|]|
 Lemma match_nonempty {A B} (l : list A) (a b : B) : l <> [] -> match l with [] => a | _ :: _ => b end = b.
 Proof. destruct l; congruence. Qed.
 
+(* copy_fits (Depth.v): the operation is not a copy whose source value nests deeper than the decoder's
+   limit; for every other kind of operation the hypothesis is trivially true (copy_fits_not_copy) *)
 Theorem step_sim o st op :
   sgood st -> plain_opts o -> op_dom op ->
+  copy_fits (dia o) (sval st) (den_op op) = true ->
   match rfc_step (dia o) (sval st) (den_op op) with
   | ROk j' => exists st', step o st op = Ok st' /\ sval st' = j' /\ sgood st'
   | RFail cz => exists e, step o st op = Err e /\ cause_rel cz e
   end.
 Proof.
-  intros [c [Hr G]] [Al [En Lim]] [Vg [path [Hp K]]].
+  intros [c [Hr G]] [Al [En Lim]] [Vg [path [Hp K]]] Fit.
   assert (SV : sval st = cval c) by (unfold sval; rewrite Hr; reflexivity).
   unfold rfc_step, step. rewrite ref_value_den_op.
   assert (RP : rpath (den_op op) = path) by (unfold den_op; simpl; rewrite Hp; reflexivity).
@@ -1196,7 +1281,10 @@ Proof.
     assert (RF : rfrom (den_op op) = from) by (unfold den_op; simpl; rewrite Hf; reflexivity). rewrite RF.
     destruct Kf as [[rf [-> Df]]| ->].
     + rewrite !ptr_tokens_slash. fold (ptoks r) (ptoks rf).
-      pose proof (op_copy_sim o st op rf r c Hr G Lim Hf Df Hp D) as S.
+      assert (Fit' : forall v, get_at (dia o) (ptoks rf) (cval c) = ROk v -> (odepth v <= max_depth)%N).
+      { intros v Ev. unfold copy_fits in Fit. rewrite RK, RF, ptr_tokens_slash, SV in Fit. cbn [ref_kind] in Fit.
+        fold (ptoks rf) in Fit. rewrite Ev in Fit. apply N.leb_le. exact Fit. }
+      pose proof (op_copy_sim o st op rf r c Hr G Lim Hf Df Hp D Fit') as S.
       assert (E : (v <- get_at (dia o) (ptoks rf) (cval c);;
                    match ptoks r with [] => RFail FRoot | _ :: _ => at_parent (dia o) (ptoks r) (cval c) (add_leaf (dia o) v) end) =
                   (v <- get_at (dia o) (ptoks rf) (cval c);; at_parent (dia o) (ptoks r) (cval c) (add_leaf (dia o) v))).
@@ -1204,7 +1292,9 @@ Proof.
       rewrite E. exact S.
     + rewrite ptr_tokens_slash. cbn [ptr_tokens get_at bind]. fold (ptoks r).
       rewrite (match_nonempty _ _ _ (ptoks_nonempty r)).
-      exact (op_copy_root_sim o st op r c Hr G Lim Hf Hp D).
+      assert (Fit' : (odepth (cval c) <= max_depth)%N).
+      { unfold copy_fits in Fit. rewrite RK, RF, SV in Fit. cbn [ref_kind ptr_tokens get_at] in Fit. apply N.leb_le. exact Fit. }
+      exact (op_copy_root_sim o st op r c Hr G Lim Hf Hp D Fit').
   - (* test *)
     destruct K as [[r [-> D]]| ->].
     + rewrite ptr_tokens_slash. fold (ptoks r). rewrite (match_nonempty _ _ _ (ptoks_nonempty r)).
@@ -1216,23 +1306,96 @@ Proof.
       * exists ETestFailed. split; [exact S | reflexivity].
 Qed.
 
+(* the complementary statement: a copy whose source (in the reference) nests deeper than the decoder's
+   limit is an error of the model, never a success and never a panic: deepCopy's error, unless the
+   destination parent is unreachable (that check comes first; the reference fails there too).
+   No condition on the options: the depth check precedes the size limit. *)
+Theorem step_copy_too_deep o st op :
+  sgood st -> op_dom op ->
+  copy_fits (dia o) (sval st) (den_op op) = false ->
+  step o st op = Err EInvalid \/
+  (step o st op = Err EMissing /\ rfc_step (dia o) (sval st) (den_op op) = RFail FUnreachable).
+Proof.
+  intros [c [Hr G]] [Vg [path [Hp K]]] Fit.
+  assert (SV : sval st = cval c) by (unfold sval; rewrite Hr; reflexivity).
+  assert (RP : rpath (den_op op) = path) by (unfold den_op; simpl; rewrite Hp; reflexivity).
+  assert (RK : rkind (den_op op) = ref_kind (op_kind op)) by reflexivity.
+  unfold copy_fits in Fit. rewrite RK in Fit. unfold rfc_step, step. rewrite RP, RK.
+  destruct (op_kind op) eqn:Ek; cbn [ref_kind] in *; try discriminate.
+  destruct K as [[r [-> D]] [from [Hf Kf]]].
+  assert (RF : rfrom (den_op op) = from) by (unfold den_op; simpl; rewrite Hf; reflexivity). rewrite RF in *.
+  assert (NC : forall v p t, is_container p = false -> add_leaf (dia o) v p t = RFail FUnreachable).
+  { intros v p t Cp. apply (proj1 (leaf_noncontainer (dia o) p t Cp)). }
+  rewrite SV in *. destruct Kf as [[rf [-> Df]]| ->].
+  - rewrite ptr_tokens_slash in Fit. rewrite !ptr_tokens_slash. fold (ptoks rf) in *. fold (ptoks r).
+    destruct (get_at (dia o) (ptoks rf) (cval c)) as [j|] eqn:Eg; [|discriminate]. apply N.leb_gt in Fit.
+    rewrite (op_copy_too_deep o st op rf r c j Hr G Hf Df Hp D Eg Fit).
+    destruct (dest_reachable (dia o) (cval c) r) eqn:R; [left; reflexivity | right; split; [reflexivity|]].
+    cbn [bind]. rewrite (match_nonempty _ _ _ (ptoks_nonempty r)). apply dest_unreachable_ref; [apply NC | exact R].
+  - cbn [ptr_tokens get_at] in Fit. apply N.leb_gt in Fit.
+    rewrite (op_copy_root_too_deep o st op r c Hr G Hf Hp D Fit).
+    destruct (dest_reachable (dia o) (cval c) r) eqn:R; [left; reflexivity | right; split; [reflexivity|]].
+    rewrite ptr_tokens_slash. cbn [ptr_tokens get_at bind]. fold (ptoks r).
+    rewrite (match_nonempty _ _ _ (ptoks_nonempty r)). apply dest_unreachable_ref; [apply NC | exact R].
+Qed.
+
+(* in particular: where RFC 6902 succeeds and the copied value is too deep, the library reports
+   deepCopy's error *)
+Corollary step_copy_too_deep_ok o st op j' :
+  sgood st -> op_dom op ->
+  copy_fits (dia o) (sval st) (den_op op) = false ->
+  rfc_step (dia o) (sval st) (den_op op) = ROk j' ->
+  step o st op = Err EInvalid.
+Proof.
+  intros G D Fit R. destruct (step_copy_too_deep o st op G D Fit) as [E|[_ E]]; [exact E | congruence].
+Qed.
+
 (* ---- whole patches ---- *)
 Definition has_copy (p : list operation) : Prop := exists op, In op p /\ op_kind op = KCopy.
 
+(* copies_fit (Depth.v): copy_fits at every operation the reference run reaches *)
 Theorem apply_sim o : plain_opts o -> forall p i st,
   sgood st -> Forall op_dom p ->
+  copies_fit (dia o) (sval st) (map den_op p) = true ->
   match rfc_apply_from (dia o) i (sval st) (map den_op p) with
   | Done doc => exists st', apply_from o i st p = AOk st' /\ sval st' = doc /\ sgood st'
   | Failed j cz => exists e, apply_from o i st p = AErr j e /\ cause_rel cz e
   end.
 Proof.
-  intros PO. induction p as [|op p IH]; intros i st G D; cbn [map rfc_apply_from apply_from].
+  intros PO. induction p as [|op p IH]; intros i st G D F; cbn [map rfc_apply_from apply_from copies_fit] in *.
   - exists st. auto.
-  - inversion D as [|? ? Dop Dp]; subst.
-    pose proof (step_sim o st op G PO Dop) as S.
+  - inversion D as [|? ? Dop Dp]; subst. apply andb_prop in F as [F1 F2].
+    pose proof (step_sim o st op G PO Dop F1) as S.
     destruct (rfc_step (dia o) (sval st) (den_op op)) as [j'|cz].
-    + destruct S as [st' [S1 [S2 S3]]]. rewrite S1. specialize (IH (S i) st' S3 Dp). rewrite S2 in IH. exact IH.
+    + destruct S as [st' [S1 [S2 S3]]]. rewrite S1. rewrite <- S2 in F2.
+      specialize (IH (S i) st' S3 Dp F2). rewrite S2 in IH. exact IH.
     + destruct S as [e [S1 S2]]. rewrite S1. eauto.
+Qed.
+
+(* when the condition fails the patch is rejected: at the first copy that does not fit (deepCopy's
+   error), or at that same operation for the reason the reference gives (its destination parent is
+   unreachable); operations before it behave as in the reference *)
+Theorem apply_copy_too_deep o : plain_opts o -> forall p i st,
+  sgood st -> Forall op_dom p ->
+  copies_fit (dia o) (sval st) (map den_op p) = false ->
+  match rfc_apply_from (dia o) i (sval st) (map den_op p) with
+  | Done _ => exists j, apply_from o i st p = AErr j EInvalid
+  | Failed k cz => exists j e, apply_from o i st p = AErr j e /\ (e = EInvalid \/ (j = k /\ cause_rel cz e))
+  end.
+Proof.
+  intros PO. induction p as [|op p IH]; intros i st G D F; cbn [map rfc_apply_from apply_from copies_fit] in *.
+  - discriminate.
+  - inversion D as [|? ? Dop Dp]; subst.
+    destruct (copy_fits (dia o) (sval st) (den_op op)) eqn:F1; cbn [andb] in F.
+    + pose proof (step_sim o st op G PO Dop F1) as S.
+      destruct (rfc_step (dia o) (sval st) (den_op op)) as [j'|cz]; [|discriminate].
+      destruct S as [st' [S1 [S2 S3]]]. rewrite S1. rewrite <- S2 in F.
+      specialize (IH (S i) st' S3 Dp F). rewrite S2 in IH. exact IH.
+    + destruct (step_copy_too_deep o st op G Dop F1) as [E|[E R]]; rewrite E.
+      * destruct (rfc_step (dia o) (sval st) (den_op op)) as [j'|cz].
+        -- destruct (rfc_apply_from (dia o) (S i) j' (map den_op p)); eauto.
+        -- eauto.
+      * rewrite R. exists i, EMissing. split; [reflexivity|]. right. split; reflexivity.
 Qed.
 
 Lemma parse_nil : parse [] = None.
@@ -1245,34 +1408,69 @@ From JP Require Import ParseFacts.
    does, and then its output is the encoding of a node whose value IS the reference's result
    (member order and number literals included); when the reference fails, Apply fails at the same
    operation with an error of the corresponding class *)
+Lemma load_doc_good o doc t :
+  parse doc = Some t -> root_container t = true -> tnodup t = true ->
+  exists c, load_doc o t = Ok (RCon c) /\ cgood c /\ cval c = den t.
+Proof.
+  intros P RC T. unfold load_doc. pose proof (parse_tlit _ _ P) as L.
+  pose proof (root_value_sim t (NRaw t) T L (parse_tsb _ _ P)) as RV.
+  destruct t; try discriminate.
+  - destruct RV as [R1 R2]. eexists. split; [reflexivity|]. split; auto.
+  - destruct (doc_of ms) as [k ob]. destruct RV as [R1 R2]. eexists. split; [reflexivity|]. split; auto.
+Qed.
+
 Theorem api_apply_sim o indent p doc t :
   plain_opts o -> parse doc = Some t -> root_container t = true -> tnodup t = true ->
   Forall op_dom p ->
+  copies_fit (dia o) (den t) (map den_op p) = true ->
   match rfc_apply (dia o) (den t) (map den_op p) with
   | Done j => exists n, api_apply o indent p doc = ROut (output o indent (render (o_esc o) n)) /\ aval n = j /\ ngood n
   | Failed i cz => exists e, api_apply o indent p doc = RErr (Some i) e /\ cause_rel cz e
   end.
 Proof.
-  intros PO P RC T D. unfold api_apply. destruct doc as [|b doc]; [rewrite parse_nil in P; discriminate|].
-  rewrite P. unfold apply_tree, load_doc. pose proof (parse_tlit _ _ P) as L.
-  pose proof (root_value_sim t (NRaw t) T L (parse_tsb _ _ P)) as RV.
-  assert (Start : exists c, (match t with
-                             | TObj ms => let (k, ob) := doc_of ms in Ok (RCon (KDoc (NRaw t) k ob))
-                             | TArr l => Ok (RCon (KAry (NRaw t) (map child l)))
-                             | TNull => Ok (RCon (KDocNil (NRaw t) (o_stale o)))
-                             | _ => Err EDecode
-                             end) = Ok (RCon c) /\ cgood c /\ cval c = den t).
-  { destruct t; try discriminate.
-    - destruct RV as [R1 R2]. eexists. split; [reflexivity|]. split; auto.
-    - destruct (doc_of ms) as [k ob]. destruct RV as [R1 R2]. eexists. split; [reflexivity|]. split; auto. }
-  destruct Start as [c [S1 [S2 S3]]]. rewrite S1.
-  pose proof (apply_sim o PO p 0%nat (mkState (RCon c) 0) (ex_intro _ c (conj eq_refl S2)) D) as AS.
+  intros PO P RC T D F. unfold api_apply. destruct doc as [|b doc]; [rewrite parse_nil in P; discriminate|].
+  rewrite P. unfold apply_tree.
+  destruct (load_doc_good o _ t P RC T) as [c [S1 [S2 S3]]]. rewrite S1.
+  assert (F' : copies_fit (dia o) (sval (mkState (RCon c) 0)) (map den_op p) = true).
+  { unfold sval. cbn [s_root]. rewrite S3. exact F. }
+  pose proof (apply_sim o PO p 0%nat (mkState (RCon c) 0) (ex_intro _ c (conj eq_refl S2)) D F') as AS.
   unfold sval in AS at 1. cbn [s_root] in AS. rewrite S3 in AS. unfold rfc_apply.
   destruct (rfc_apply_from (dia o) 0 (den t) (map den_op p)) as [j|i cz].
   - destruct AS as [st' [A1 [A2 [c' [A3 A4]]]]]. rewrite A1. unfold marshal_root. rewrite A3.
     exists (node_of_con c'). unfold sval in A2. rewrite A3 in A2.
     destruct c' as [s k ob| |s ns]; [| exfalso; exact (proj2 A4) |]; (split; [reflexivity | split; [exact A2 | exact (proj1 A4)]]).
   - destruct AS as [e [A1 A2]]. rewrite A1. eauto.
+Qed.
+
+(* Apply on bytes when some copy the reference run reaches does not fit: an error at an operation *)
+Theorem api_apply_copy_too_deep o indent p doc t :
+  plain_opts o -> parse doc = Some t -> root_container t = true -> tnodup t = true ->
+  Forall op_dom p ->
+  copies_fit (dia o) (den t) (map den_op p) = false ->
+  match rfc_apply (dia o) (den t) (map den_op p) with
+  | Done _ => exists j, api_apply o indent p doc = RErr (Some j) EInvalid
+  | Failed k cz => exists j e, api_apply o indent p doc = RErr (Some j) e /\ (e = EInvalid \/ (j = k /\ cause_rel cz e))
+  end.
+Proof.
+  intros PO P RC T D F. unfold api_apply. destruct doc as [|b doc]; [rewrite parse_nil in P; discriminate|].
+  rewrite P. unfold apply_tree.
+  destruct (load_doc_good o _ t P RC T) as [c [S1 [S2 S3]]]. rewrite S1.
+  assert (F' : copies_fit (dia o) (sval (mkState (RCon c) 0)) (map den_op p) = false).
+  { unfold sval. cbn [s_root]. rewrite S3. exact F. }
+  pose proof (apply_copy_too_deep o PO p 0%nat (mkState (RCon c) 0) (ex_intro _ c (conj eq_refl S2)) D F') as AS.
+  unfold sval in AS at 1. cbn [s_root] in AS. rewrite S3 in AS. unfold rfc_apply.
+  destruct (rfc_apply_from (dia o) 0 (den t) (map den_op p)) as [j|k cz].
+  - destruct AS as [j0 A1]. rewrite A1. eauto.
+  - destruct AS as [j0 [e [A1 A2]]]. rewrite A1. eauto.
+Qed.
+
+(* the condition holds in particular for a patch without copy operations ... *)
+Lemma den_op_not_copy op : op_kind op <> KCopy -> rkind (den_op op) <> OpCopy.
+Proof. unfold den_op. cbn [rkind]. destruct (op_kind op); cbn [ref_kind]; congruence. Qed.
+
+Lemma copies_fit_no_copy_ops d p doc : Forall (fun op => op_kind op <> KCopy) p -> copies_fit d doc (map den_op p) = true.
+Proof.
+  intro H. apply copies_fit_no_copy. rewrite Forall_map. revert H. apply Forall_impl. exact den_op_not_copy.
 Qed.
 
 (* ---- consequences used by the property files ---- *)
